@@ -105,6 +105,9 @@ def rich_world(rng, d, unresolvable=True):
     #  finding C02/non-hierarchical-base-uri and every validation would end in RefResolutionError)
     hdocs = {H + "h0.json": {"definitions": {"x": leaf2}, "properties": {"v": leaf2, "u": {"$ref": R.STORE_DIR + "s1.json#/definitions/q"}}},
              H + "h1.json": leaf}
+    pa, pb = rng.choice([("Item.json", "item.json"), ("t.json?n=1", "t.json?n=2"), ("dir/", "dir"), ("a%41.json", "aA.json")])
+    hdocs[H + "pairs/" + pa] = {"type": "integer"}
+    hdocs[H + "pairs/" + pb] = {"type": "string"}
     store = {R.STORE_DIR + "s0.json": {idk: R.STORE_DIR + "s0.json", "items": {"$ref": "s1.json#/definitions/q"}},
              R.STORE_DIR + "s1.json": {"definitions": {"q": leaf2}}}
     deep = {idk: "a/", "properties": {"x": {idk: "b/", "items": {idk: "c/", "properties": {
@@ -123,6 +126,9 @@ def rich_world(rng, d, unresolvable=True):
         "f": {"format": "vf-format"},
         "t": {"type": "string"},
         "l": {"$ref": "#/definitions/leaf"},
+        # two URLs that differ only in case / query / trailing slash / an escape designate different documents
+        "ua": {"$ref": H + "pairs/" + pa},
+        "ub": {"$ref": H + "pairs/" + pb},
         # the draft's own id keyword next to $ref (spellings that resolve whether or not the sibling id is honoured)
         "k": {idk: "http://other.example/x/", "$ref": R.ROOT_URL + "#/definitions/leaf"},
         "k2": {"$ref": "#/definitions/deep", idk: R.ROOT_URL},
